@@ -689,6 +689,6 @@ func RunCheck(cfg *CheckConfig) *CheckOutcome {
 		nUnsup += v
 		fmt.Printf("UNDECIDED-PATHS: %d x %s (the encoder has no model for this; nothing is claimed for these paths)\n", v, k)
 	}
-	fmt.Printf("RESULT property=%s tier=%s paths=%d violations=%d known=%d discrepancies=%d undecided=%d incomplete=%v wall=%.1fs\n", cfg.Property, cfg.Tier, totalPaths, len(out.Violations), len(out.Known), len(discrepancies), nUnsup, incomplete, time.Since(t0).Seconds())
+	fmt.Printf("RESULT property=%s tier=%s paths=%d violations=%d known=%d discrepancies=%d undecided=%d inconclusive=%d incomplete=%v wall=%.1fs\n", cfg.Property, cfg.Tier, totalPaths, len(out.Violations), len(out.Known), len(discrepancies), nUnsup, inconclusive, incomplete, time.Since(t0).Seconds())
 	return out
 }
